@@ -70,7 +70,7 @@ def gen_case(idx: int, seed: int, tier: str) -> Any:
         rng.shuffle(order)
         return {"kind": "crowd", "backend": rng.choice(["asyncio", "trio"]), "sched_seed": rng.randrange(1 << 30), "shuffle": rng.random() < 0.5,
                 "waiters": n, "burst": rng.choice([0, 3, 49, 50, 51, 60, 120]), "order": order, "yields": [rng.randint(0, 2) for _ in range(n)],
-                "publishers": rng.choice([1, 2, 3]), "second_burst": rng.choice([0, 0, 55]), "listener_queue": rng.choice([None, 1, 3]), "two_trees": rng.random() < 0.3}
+                "publishers": rng.choice([1, 2, 3]), "second_burst": rng.choice([0, 0, 55]), "listener_queue": rng.choice([None, 1, 3]), "two_trees": rng.random() < 0.3, "double": rng.random() < 0.4}
     tree = e2.gen_tree(rng, wait_heavy=True, max_nodes=rng.choice([4, 6, 10]), p_remap=0.3, with_services=False)
     return {"backend": rng.choice(["asyncio", "trio"]), "sched_seed": rng.randrange(1 << 30), "shuffle": rng.random() < 0.5,
             "timeout": rng.choice([None, 1e6]), "tree": tree}
@@ -92,8 +92,23 @@ async def crowd_scenario(case: dict[str, Any], out: dict[str, Any]) -> None:
     t0 = [0.0]
     done: dict[int, Any] = out["done"]
 
+    types2 = [type(f"AlsoAwaited{i}", (), {}) for i in range(n)]
+    objs2 = [types2[i]() for i in range(n)]
+
     def make_waiter(i: int) -> Any:
         async def start(self: Any) -> None:
+            if case.get("double") and i % 2 == 0:
+                # this component has two requests waiting at the same time (two of its own tasks): each gets what it asked for
+                results: dict[str, Any] = {}
+
+                async def ask(key: str, T: Any) -> None:
+                    results[key] = await get_resource(T)
+
+                async with anyio.create_task_group() as wtg:
+                    wtg.start_soon(ask, "a", types[i])
+                    wtg.start_soon(ask, "b", types2[i])
+                done[i] = (anyio.current_time() - t0[0], results.get("a") is objs[i] and results.get("b") is objs2[i])
+                return
             got = await get_resource(types[i])
             done[i] = (anyio.current_time() - t0[0], got is objs[i])
 
@@ -111,6 +126,8 @@ async def crowd_scenario(case: dict[str, Any], out: dict[str, Any]) -> None:
                 for _ in range(case["yields"][i]):
                     await checkpoint()
                 add_resource(objs[i])
+                if case.get("double") and i % 2 == 0:
+                    add_resource(objs2[i])
                 if case["second_burst"] and i == mine[0]:
                     for b in range(case["second_burst"]):
                         add_resource(Unrelated(), f"burst2_{k}_{b}")
@@ -304,6 +321,8 @@ def run_crowd(case: dict[str, Any]) -> dict[str, Any]:
         c["crowd_scenarios_with_a_slow_listener"] = 1
     if case.get("two_trees"):
         c["crowd_scenarios_with_two_component_trees"] = 1
+    if case.get("double"):
+        c["crowd_scenarios_with_components_having_two_requests_waiting_at_once"] = 1
     return {"violations": V[:3], "sig": ("crowd", tuple(sorted((k, str(v)) for k, v in case.items()))), "nontrivial": True, "counters": c, "sample": None}
 
 
